@@ -289,7 +289,7 @@ pub fn gen(rng: &mut crate::prng::Rng, quick: bool) -> RefArchive {
         max_cells: if cfg!(miri) { 6 } else if quick { 48 } else { 200 },
         allow_unaligned_len: true,
         cstrings: false,
-        max_labels: 24,
+        max_labels: if rng.chance(1, 5) { 160 } else { 24 },
         string_len: 8,
     };
     let mut m = archive::gen_content(rng, &o);
